@@ -177,6 +177,8 @@ def run(repo, tier):
     # ------------------------------------------------------------ N-NEAREST + threads
     out += nearest_rules(fi, loop, pv, tv)
     out += thread_rules(repo)
+    from ..rules import module_state_rule
+    out += module_state_rule(repo, T)
     return out
 
 
